@@ -41,20 +41,20 @@ var c12Values = map[string][]string{
 	"i8": {"-128", "-1", "0", "127"}, "i16": {"-32768", "32767", "5"}, "i32": {"-2147483648", "2147483647", "-7"},
 	"i64": {"-9223372036854775808", "9223372036854775807", "-1", "0"},
 	"u8":  {"0", "255", "7"}, "u16": {"0", "65535"}, "u32": {"0", "4294967295"},
-	"u64": {"0", "9223372036854775807", "9223372036854775808", "18446744073709551615"},
-	"d1":  {"-0.1", "0.5", "922337203685477580.7", "-922337203685477580.8", "3.0"},
-	"d2":  {"1.50", "-1.5", "0.01", "-0.01", "100.00", "7"},
-	"d18": {"0.000000000000000001", "-9.223372036854775808", "1.5"},
+	"u64":  {"0", "9223372036854775807", "9223372036854775808", "18446744073709551615"},
+	"d1":   {"-0.1", "0.5", "922337203685477580.7", "-922337203685477580.8", "3.0"},
+	"d2":   {"1.50", "-1.5", "0.01", "-0.01", "100.00", "7"},
+	"d18":  {"0.000000000000000001", "-9.223372036854775808", "1.5"},
 	"bool": {"true", "false"}, "emp": {"EMPTY"},
-	"str":   {"a b", "x", "Zürich", "1.50", "true"},
-	"en":    {"one", "two", "t-h-r-e-e"},
-	"idref": {"id-one", "id-two", "id-three"},
-	"un1":   {"5", "255", "256", "auto", "none", "zzz"},
-	"un2":   {"-5", "2147483647", "1.5", "1.50", "2147483648"},
-	"bits":  {"b0", "b0 b7"},
-	"bin":   {"aGVsbG8="},
-	"lr":    {"5"},
-	"pct":   {"0", "100"},
+	"str":    {"a b", "x", "Zürich", "1.50", "true"},
+	"en":     {"one", "two", "t-h-r-e-e"},
+	"idref":  {"id-one", "id-two", "id-three"},
+	"un1":    {"5", "255", "256", "auto", "none", "zzz"},
+	"un2":    {"-5", "2147483647", "1.5", "1.50", "2147483648"},
+	"bits":   {"b0", "b0 b7"},
+	"bin":    {"aGVsbG8="},
+	"lr":     {"5"},
+	"pct":    {"0", "100"},
 	"ll-str": {"LL:a,b", "LL:b,a", "LL:x"}, "ll-u64": {"LL:18446744073709551615,1"}, "ll-i8": {"LL:-128,127"}, "ll-d2": {"LL:1.50,-0.25"},
 	"ll-en": {"LL:one,two"}, "ll-idref": {"LL:id-one,id-three"}, "ll-bool": {"LL:true,false"},
 }
